@@ -356,6 +356,25 @@ def r4(ctx):
     ctx.check(bool(invoke) and w is None, fc.key + ":finaliser-invoked",
               "a finaliser popped from finalize_callback is dropped without being called on a live connection",
               "every popped finaliser is called with the DBAPI connection", fc.loc, w)
+    # a finaliser that FAILS has not reset its characteristic: the record must not be handed back to the pool live.
+    # Either the exception leaves checkin (today), or the record is invalidated / closed before _return_conn; an
+    # exceptional exit of the invocation that reaches _return_conn otherwise (swallowing handler, `finally`) pools the
+    # DBAPI connection with the previous user's isolation level.  Same shape as C24-R1's reset-failure-invalidates.
+    fk = _nf(ctx, f"{POOL}::_ConnectionRecord.checkin", "_return_conn", "invalidate", "__close", "close", alias="dotted")
+    gk = rcfg(ctx, fk)
+    popped_k = {n for n, v, _ in name_stores(fk.node)
+                if isinstance(v, ast.Call) and (call_name(v) or "").rsplit(".", 1)[0].endswith("finalize_callback")
+                and (call_name(v) or "").rsplit(".", 1)[-1] in ("pop", "popleft")}
+    invoke_k = call_nodes(gk, lambda nm, c: nm in popped_k)
+    ret_k = calls_ending(gk, "_return_conn")
+    ctx.require(invoke_k and ret_k, "checkin (helpers inlined, `invalidate`/`__close` kept): finaliser invocation or _return_conn() not found")
+    discard = call_nodes(gk, lambda nm, c: nm in ("self.invalidate", "self.__close", "self.close"))
+    w = PathSense(gk).witness(invoke_k, ret_k, avoid=discard, start_edge_ok=lambda a, b, lab: lab == "exc")
+    ctx.check(w is None, fc.key + ":finaliser-failure-not-pooled",
+              "an exception raised by a finaliser (the reset of the connection characteristics, e.g. of the isolation "
+              "level, failed) can reach _return_conn() without the record being invalidated: the DBAPI connection goes "
+              "back into the pool with the previous user's characteristic still set",
+              "a failing finaliser never reaches _return_conn() with the record live", fc.loc, w)
     # __close discards pending finalisers (the connection they would reset is gone)
     fx = _nf(ctx, f"{POOL}::_ConnectionRecord.__close", "_close_connection", alias="dotted")
     gx = ctx.cfg(fx)
@@ -734,6 +753,99 @@ def r6(ctx):
                 s["loc"], s["path"])
 
 
+# ---------------------------------------------------------------------- C24-R7 (str2-k, round-2 seed C24_4)
+# What "default isolation level" of a pooled connection means (documented for create_engine(isolation_level=...) and
+# Dialect.reset_isolation_level): the level configured for the whole engine when there is one -- that is what the
+# on-connect hook puts every new DBAPI connection into -- otherwise the level detected on the first connection.
+ISO_CONFIGURED = "self._on_connect_isolation_level"
+ISO_DETECTED = "self.default_isolation_level"
+ISO_SINKS = ("_assert_and_set_isolation_level", "set_isolation_level")
+
+
+def _is_iso_sink(callee: str) -> bool:
+    return callee.rsplit(".", 1)[-1] in ISO_SINKS
+
+
+@R.rule("C24-R7", floor=5, template="T-TABLE (scenario evaluation) / sibling agreement",
+        desc="reset_isolation_level (every implementation under DefaultDialect) restores the level the on-connect hook "
+             "gives a new connection: with an engine-wide level configured (_on_connect_isolation_level is not None) "
+             "every path sets exactly that level, whatever was detected on the server; without one, the detected "
+             "default_isolation_level; IsolationLevelCharacteristic.reset_characteristic goes through it")
+def r7(ctx):
+    from ._helpers_rob_c1 import Opaque, Unsupported
+    from ._helpers_rob_e2 import expand
+    from ._helpers_str2_k import call_arg, callee_of, explore_effects
+    ix = ctx.index
+    base = ix.cls(f"{DEF}::DefaultDialect")
+    impls = [(c, c.methods["reset_isolation_level"]) for c in [base] + ix.subclasses(base)
+             if "reset_isolation_level" in c.methods and not c.methods["reset_isolation_level"].type_only]
+    ctx.require(any(c is base for c, _ in impls), "DefaultDialect.reset_isolation_level vanished")
+    # A configured level other than AUTOCOMMIT is what detection then reports (the first connection is inspected after
+    # the on-connect hook ran): there the two attributes name the same level and either spelling restores it.  AUTOCOMMIT
+    # is not a server-side level: detection reports the transactional level underneath it.
+    is_ac = [ISO_CONFIGURED + " == 'AUTOCOMMIT'", "'AUTOCOMMIT' == " + ISO_CONFIGURED]
+    scenarios = [
+        ("engine-level-autocommit", {ISO_CONFIGURED + " is None": False, ISO_CONFIGURED: True, **{a: True for a in is_ac}},
+         (ISO_CONFIGURED,), "the engine is configured with create_engine(isolation_level='AUTOCOMMIT')"),
+        ("engine-level-configured", {ISO_CONFIGURED + " is None": False, ISO_CONFIGURED: True, **{a: False for a in is_ac},
+                                     ISO_DETECTED + " is None": False, ISO_DETECTED: True},
+         (ISO_CONFIGURED, ISO_DETECTED), "an engine-wide isolation level other than AUTOCOMMIT is configured"),
+        ("no-engine-level", {ISO_CONFIGURED + " is None": True, ISO_CONFIGURED: False, **{a: False for a in is_ac},
+                             ISO_DETECTED + " is None": False, ISO_DETECTED: True}, (ISO_DETECTED,),
+         "no engine-wide isolation level is configured"),
+    ]
+    for c, m in impls:
+        params = [p for p in m.params if p not in ("self",)]
+        for tag, scen, expected, words in scenarios:
+            key = f"{m.key}:{tag}"
+            try:
+                paths = explore_effects(ctx, m, [Opaque("self")] + [Opaque(p) for p in params], cls=c, no_follow=ISO_SINKS,
+                                        scenario=scen)
+            except Unsupported as e:
+                ctx.error(f"{m.key}: cannot be evaluated symbolically: {e}")
+            bad, n_ret = None, 0
+            for assign, (kind, _val), effects in paths:
+                if kind != "return":
+                    continue
+                n_ret += 1
+                sinks = [op for op in effects if _is_iso_sink(callee_of(op))]
+                extra = ", ".join(f"{k}={v}" for k, v in sorted(assign.items()) if k not in scen)
+                if not sinks:
+                    bad = bad or f"a path{' (' + extra + ')' if extra else ''} returns without setting any isolation level"
+                    continue
+                lvl = call_arg(sinks[-1], 1, "level")
+                got = lvl.label if isinstance(lvl, Opaque) else repr(lvl)
+                if got not in expected:
+                    bad = bad or (f"the connection is left at `{got}`{' (when ' + extra + ')' if extra else ''} instead of "
+                                  f"`{expected[0]}`")
+            ctx.require(n_ret, f"{m.key}: no returning path when {words}")
+            ctx.check(bad is None, key,
+                      f"when {words}, {bad}: the next checkout of this pooled connection does not get the engine's "
+                      f"default isolation level" + (" (detection reports the transactional level underneath AUTOCOMMIT: "
+                                                    "an AUTOCOMMIT engine silently turns transactional, un-committed "
+                                                    "work of the next user is rolled back on return)" if tag == "engine-level-autocommit" else ""),
+                      f"every path sets {' / '.join(expected)}", m.loc)
+    # sibling: what a NEW connection is given on connect is the configured level itself
+    oc = ctx.func(f"{DEF}::DefaultDialect._builtin_onconnect")
+    sinks = [c_ for c_ in calls_in(oc.node, into_nested=True) if _is_iso_sink(call_name(c_) or "")]
+    ctx.require(sinks, f"{oc.key}: no isolation-level call in the on-connect hook")
+    lv = [kw_or_pos(c_, "level", 1) for c_ in sinks]
+    ok = all(v is not None and dotted(expand(oc.node, v)) == ISO_CONFIGURED for v in lv)
+    ctx.check(ok, oc.key + ":applies-configured-level",
+              "the on-connect hook sets `" + ", ".join(unparse(v) if v is not None else "?" for v in lv)
+              + f"`, not {ISO_CONFIGURED}: new and reset connections of one engine would disagree",
+              f"new connections get {ISO_CONFIGURED}", oc.loc)
+    # the characteristic's reset goes through dialect.reset_isolation_level on every path
+    rc = ctx.func(f"{CHR}::IsolationLevelCharacteristic.reset_characteristic")
+    frc = _nf(ctx, rc.key, "reset_isolation_level", alias="dotted")
+    grc = ctx.cfg(frc)
+    thru = call_nodes(grc, lambda nm, c_: nm.endswith(".reset_isolation_level"))
+    w = must_pass(grc, [grc.entry], [grc.exit], thru, edge_ok=no_exc) if thru else ["no dialect.reset_isolation_level() call"]
+    ctx.check(w is None, rc.key + ":through-dialect-reset",
+              "IsolationLevelCharacteristic.reset_characteristic can return without dialect.reset_isolation_level()",
+              "reset_characteristic -> dialect.reset_isolation_level(dbapi_conn)", rc.loc, w)
+
+
 # ---------------------------------------------------------------------- self-test battery
 _RESET_CALL = (
     "            fairy._reset(\n"
@@ -1016,3 +1128,126 @@ R.mutant("benign-rob-characteristics-values-built-by-loop", DEF,
          sub("        characteristic_values = [\n            (name, self.connection_characteristics[name], value)\n            for name, value in characteristics.items()\n        ]\n",
              "        characteristic_values = []\n        for name, value in characteristics.items():\n"
              "            characteristic_values.append(\n                (name, self.connection_characteristics[name], value)\n            )\n"), None)
+
+# ---------------------------------------------------------------------- str2-k: round-2 seeds C24_3 (checkin swallows a
+# failing finaliser) and C24_4 (reset_isolation_level forgets the engine-wide level)
+_INVOKE = "            if connection is not None:\n                finalizer(connection)\n"
+R.mutant("checkin-seed3-failing-finaliser-swallowed", POOL,
+         sub(_INVOKE,
+             "            if connection is not None:\n                try:\n                    finalizer(connection)\n"
+             "                except Exception:\n                    pool.logger.error(\n"
+             "                        \"Exception during connection finalizer\", exc_info=True\n                    )\n"), "C24-R4")
+R.mutant("checkin-return-conn-in-finally-of-drain", POOL,
+         sub(_DRAIN + "        if pool.dispatch.checkin:\n            pool.dispatch.checkin(connection, self)\n\n        pool._return_conn(self)\n",
+             "        try:\n" + _DRAIN.replace("\n        ", "\n            ").replace("        while", "            while", 1)
+             + "            if pool.dispatch.checkin:\n                pool.dispatch.checkin(connection, self)\n"
+               "        finally:\n            pool._return_conn(self)\n"), "C24-R4")
+R.mutant("rob-checkin-drain-helper-suppresses-finaliser-errors", POOL,
+         chain(sub(_DRAIN + "        if pool.dispatch.checkin:\n", "        self._run_finalizers(connection)\n        if pool.dispatch.checkin:\n"),
+               sub("    def checkin(self, _fairy_was_created: bool = True) -> None:\n",
+                   "    def _run_finalizers(self, dbapi_conn: Optional[DBAPIConnection]) -> None:\n"
+                   "        callbacks = self.finalize_callback\n        while callbacks:\n            fn = callbacks.pop()\n"
+                   "            if dbapi_conn is None:\n                continue\n            try:\n                fn(dbapi_conn)\n"
+                   "            except Exception as err:\n                util.warn(\"finalizer failed: %s\" % err)\n\n"
+                   "    def checkin(self, _fairy_was_created: bool = True) -> None:\n")), "C24-R4")
+R.mutant("benign-checkin-failing-finaliser-invalidates-record", POOL,
+         sub(_INVOKE,
+             "            if connection is not None:\n                try:\n                    finalizer(connection)\n"
+             "                except BaseException as err:\n                    pool.logger.error(\n"
+             "                        \"Exception during connection finalizer\", exc_info=True\n                    )\n"
+             "                    self.invalidate(e=err)\n"), None)
+R.mutant("benign-checkin-failing-finaliser-logged-and-reraised", POOL,
+         sub(_INVOKE,
+             "            if connection is not None:\n                try:\n                    finalizer(connection)\n"
+             "                except Exception:\n                    pool.logger.error(\n"
+             "                        \"Exception during connection finalizer\", exc_info=True\n                    )\n"
+             "                    raise\n"), None)
+R.mutant("benign-checkin-failing-finaliser-closes-record-in-helper", POOL,
+         chain(sub(_INVOKE,
+                   "            if connection is not None:\n                try:\n                    finalizer(connection)\n"
+                   "                except Exception as err:\n                    self._finalizer_failed(err)\n"),
+               sub("    def checkin(self, _fairy_was_created: bool = True) -> None:\n",
+                   "    def _finalizer_failed(self, err: BaseException) -> None:\n"
+                   "        self.__pool.logger.error(\"finalizer failed\", exc_info=True)\n        self.invalidate(e=err)\n\n"
+                   "    def checkin(self, _fairy_was_created: bool = True) -> None:\n")), None)
+
+_RESET_ISO = (
+    "        if self._on_connect_isolation_level is not None:\n"
+    "            assert (\n"
+    "                self._on_connect_isolation_level == \"AUTOCOMMIT\"\n"
+    "                or self._on_connect_isolation_level\n"
+    "                == self.default_isolation_level\n"
+    "            )\n"
+    "            self._assert_and_set_isolation_level(\n"
+    "                dbapi_conn, self._on_connect_isolation_level\n"
+    "            )\n"
+    "        else:\n"
+    "            assert self.default_isolation_level is not None\n"
+    "            self._assert_and_set_isolation_level(\n"
+    "                dbapi_conn,\n"
+    "                self.default_isolation_level,\n"
+    "            )\n"
+)
+R.mutant("reset-iso-seed4-detected-default-first", DEF,
+         sub(_RESET_ISO,
+             "        level = self.default_isolation_level\n        if level is None:\n"
+             "            level = self._on_connect_isolation_level\n        assert level is not None\n"
+             "        self._assert_and_set_isolation_level(dbapi_conn, level)\n"), "C24-R7")
+R.mutant("reset-iso-branch-test-flipped", DEF,
+         sub("    def reset_isolation_level(self, dbapi_conn):\n        if self._on_connect_isolation_level is not None:\n",
+             "    def reset_isolation_level(self, dbapi_conn):\n        if self._on_connect_isolation_level is None:\n"), "C24-R7")
+R.mutant("reset-iso-always-detected-default", DEF,
+         sub(_RESET_ISO,
+             "        assert self.default_isolation_level is not None\n"
+             "        self._assert_and_set_isolation_level(\n            dbapi_conn, self.default_isolation_level\n        )\n"), "C24-R7")
+R.mutant("reset-iso-configured-level-only-validated", DEF,
+         sub(_RESET_ISO,
+             "        if self._on_connect_isolation_level is not None:\n"
+             "            assert self._on_connect_isolation_level in self._gen_allowed_isolation_levels(dbapi_conn)\n"
+             "            return\n"
+             "        self._assert_and_set_isolation_level(dbapi_conn, self.default_isolation_level)\n"), "C24-R7")
+R.mutant("reset-iso-helper-prefers-detected-default", DEF,
+         chain(sub(_RESET_ISO, "        self._assert_and_set_isolation_level(dbapi_conn, self._reset_target_level())\n"),
+               sub("    def reset_isolation_level(self, dbapi_conn):\n",
+                   "    def _reset_target_level(self):\n        return self.default_isolation_level or self._on_connect_isolation_level\n\n"
+                   "    def reset_isolation_level(self, dbapi_conn):\n")), "C24-R7")
+R.mutant("onconnect-hook-applies-detected-default", DEF,
+         sub("                self._assert_and_set_isolation_level(\n                    dbapi_conn, self._on_connect_isolation_level\n                )\n\n            return builtin_connect\n",
+             "                self._assert_and_set_isolation_level(\n                    dbapi_conn, self.default_isolation_level\n                )\n\n            return builtin_connect\n"), "C24-R7")
+R.mutant("iso-characteristic-reset-sets-detected-default-itself", CHR,
+         sub("        dialect.reset_isolation_level(dbapi_conn)\n",
+             "        if dialect.default_isolation_level is not None:\n"
+             "            dialect.set_isolation_level(dbapi_conn, dialect.default_isolation_level)\n"), "C24-R7")
+R.mutant("benign-reset-iso-branches-inverted", DEF,
+         sub(_RESET_ISO,
+             "        if self._on_connect_isolation_level is None:\n            assert self.default_isolation_level is not None\n"
+             "            self._assert_and_set_isolation_level(dbapi_conn, self.default_isolation_level)\n"
+             "            return\n"
+             "        self._assert_and_set_isolation_level(dbapi_conn, self._on_connect_isolation_level)\n"), None)
+R.mutant("benign-reset-iso-level-local-single-call", DEF,
+         sub(_RESET_ISO,
+             "        configured = self._on_connect_isolation_level\n        level = self.default_isolation_level\n"
+             "        if configured is not None:\n            level = configured\n"
+             "        assert level is not None\n        self._assert_and_set_isolation_level(dbapi_conn, level)\n"), None)
+R.mutant("benign-reset-iso-target-level-helper", DEF,
+         chain(sub(_RESET_ISO, "        self._assert_and_set_isolation_level(dbapi_conn, self._reset_target_level())\n"),
+               sub("    def reset_isolation_level(self, dbapi_conn):\n",
+                   "    def _reset_target_level(self):\n        if self._on_connect_isolation_level is not None:\n"
+                   "            return self._on_connect_isolation_level\n        return self.default_isolation_level\n\n"
+                   "    def reset_isolation_level(self, dbapi_conn):\n")), None)
+R.mutant("benign-reset-iso-conditional-expression", DEF,
+         sub(_RESET_ISO,
+             "        self._assert_and_set_isolation_level(\n            dbapi_conn,\n"
+             "            self.default_isolation_level\n            if self._on_connect_isolation_level is None\n"
+             "            else self._on_connect_isolation_level,\n        )\n"), None)
+R.mutant("benign-reset-iso-configured-only-when-autocommit", DEF,
+         sub(_RESET_ISO,
+             "        if self._on_connect_isolation_level == \"AUTOCOMMIT\":\n"
+             "            self._assert_and_set_isolation_level(dbapi_conn, \"AUTOCOMMIT\")\n"
+             "        else:\n            assert self.default_isolation_level is not None\n"
+             "            self._assert_and_set_isolation_level(dbapi_conn, self.default_isolation_level)\n"), None)
+R.mutant("benign-onconnect-hook-level-through-local", DEF,
+         sub("        if self._on_connect_isolation_level is not None:\n\n            def builtin_connect(dbapi_conn, conn_rec):\n"
+             "                self._assert_and_set_isolation_level(\n                    dbapi_conn, self._on_connect_isolation_level\n                )\n",
+             "        level = self._on_connect_isolation_level\n        if level is not None:\n\n            def builtin_connect(dbapi_conn, conn_rec):\n"
+             "                self._assert_and_set_isolation_level(dbapi_conn, level)\n"), None)
